@@ -31,6 +31,7 @@ type Config struct {
 	MaxDepth     int // call depth
 	Wall         time.Duration
 	Params       map[string]int // harness parameters (verifParam)
+	StubFuncs    []string       // functions replaced by an empty body returning zero values
 	Trace        bool
 	SpareCap     bool // append growth policy: spare capacity
 	StopOnViol   bool
